@@ -205,6 +205,15 @@ def declare_annotation(idx, rep, own):
         bad = [w for w in r.param_writes.get(p, [])] if p else []
         new_obj_fresh = None
         stores = [s for s in r.sites if s.kind == "attribute store" and s.detail == "annotations"]
+        # the wrapper may hand the work to a method of the operator (`return obj.annotated(self)`): the copy and the new set are then
+        # made there, with the receiver in the role of the wrapped operator (its writes to the receiver reach `bad` through the summary)
+        for c in df.calls(wrap.node):
+            if isinstance(c.func, ast.Attribute) and isinstance(c.func.value, ast.Name) and c.func.value.id == p and idx.has_cls("LinearOperator"):
+                m = idx.find_method(idx.cls("LinearOperator"), c.func.attr)
+                if m is not None:
+                    rm = own.analyse(m)
+                    stores += [s for s in rm.sites if s.kind == "attribute store" and s.detail == "annotations"]
+                    bad += [w for w in rm.self_writes.get("annotations", [])] + [w for w in rm.param_writes.get(m.params[0], [])]
         if stores:
             new_obj_fresh = all(o[0] == "fresh" for o in stores[0].origins)
             val_fresh = None
@@ -222,7 +231,7 @@ def declare_annotation(idx, rep, own):
             ok = True if (new_obj_fresh and val_fresh) else (False if (new_obj_fresh is False or val_fresh is False) else None)
             rep.decide(ok, "declare-annotation", "WrapMeta.__call__",
                        f"annotation stored on {'a freshly unflattened object' if new_obj_fresh else 'an object that is not fresh: ' + show(stores[0].origins)}; "
-                       f"value {'is a new set' if val_fresh else 'aliases the argument set'}", detail="" if ok else "aliased", locs=[idx.loc(wrap.module, stores[0].node)])
+                       f"value {'is a new set' if val_fresh else 'aliases the argument set'}", detail="" if ok else "aliased", locs=[idx.loc(stores[0].fi.module, stores[0].node)])
 
 
 def pub_name(f):
